@@ -370,7 +370,11 @@ func TestVerifC37(t *testing.T) {
 			s := vsched.Replay(rp.Choices, vsched.Options{Horizon: 16}, c37SeqBody(rp.Kind, rp.Steps, &sobs))
 			evalSeq(rp.Kind, rp.Steps, s)
 		case "keys":
-			c37Collisions(r, rp.Second.Kind, []c37Event{*rp.First, *rp.Second})
+			kind := rp.Second.Kind
+			if rp.First.Kind != kind {
+				kind = "mixed"
+			}
+			c37Collisions(r, kind, []c37Event{*rp.First, *rp.Second})
 		}
 		return
 	}
@@ -433,6 +437,27 @@ func TestVerifC37(t *testing.T) {
 				r.Sample(map[string]any{"leg": "keys", "events": len(dom), "first": dom[0].String(), "last": dom[len(dom)-1].String()})
 			}
 		}
+	}
+	// mixed: events of DIFFERENT kinds built from the same material (a 64-digit seed
+	// that reads like a wallet ID / result hash) delivered to one deduplicator made by
+	// newDeduplicator(): a started, a submitted and a closed event are three distinct
+	// events whatever their fields, each must be handled (both delivery orders).
+	idx++
+	if r.Mine(idx) {
+		var dom []c37Event
+		for _, x := range "17a" {
+			for _, y := range "01a" {
+				p := c37Pat(byte(x), 'a', byte(y))
+				dom = append(dom, c37Event{Kind: "started", Seed: p}, c37Event{Kind: "closed", ID: p},
+					c37Event{Kind: "submitted", Seed: p, Hash: p, Block: 0}, c37Event{Kind: "submitted", Seed: p, Hash: p, Block: 7})
+			}
+		}
+		c37Collisions(r, "mixed", dom)
+		rev := make([]c37Event, len(dom))
+		for i, e := range dom {
+			rev[len(dom)-1-i] = e
+		}
+		c37Collisions(r, "mixed", rev)
 	}
 	if shard == 0 {
 		r.Set("max_preemption_bound", maxBound)
